@@ -383,6 +383,10 @@ def execute(scn, world: World, plans: dict, res: Result, *, auto_heal: bool, rec
                 cands = _guard_inputs(world, frames_now, before, after)
                 turn = fired[0][0] if isinstance(fired[0][0], int) else len(kinds)
                 culprit = _culprit(world, frames_now) if isinstance(fired[0][0], int) else None
+                if culprit and any(k[0] == culprit for k in after):
+                    # something computed under the old rule is kept (by an earlier request
+                    # - possibly one that failed on its own, which the twin never made)
+                    culprit = None
                 if cands and turn % 2 == 0:
                     var, per = cands[0]
                     heal["input_first"] = [var, per, _new_value(world.var_specs[var])]
@@ -443,7 +447,8 @@ def _guard_inputs(world, frames, before, after):
 def _culprit(world, frames):
     """The variable whose formula was running when the request failed - provided none of
     its computations completed in this request (a value completed under the old rule
-    legitimately stays, and the twin would compute it under the new one)."""
+    legitimately stays, and the twin would compute it under the new one).  The caller
+    also requires that the simulation holds no value of it at all."""
     open_ = [f for f in frames if not f.done]
     if not open_:
         return None
